@@ -615,7 +615,7 @@ def cases(tier, seed):
         [3, 2, 2, 2, 2], [3, 2, 2, 1, 2], [2, 3, 3, 2, 2], [3, 3, 3, 2, 1],
         [2, 2, 3, 2, 2], [2, 3, 2, 2, 2], [2, 1, 2, 2, 2], [3, 2, 3, 1, 2], [2, 3, 2, 2, 1], [2, 2, 1, 2, 3], [3, 3, 2, 2, 2],
     ]
-    nseeds = 4 if thorough else 1
+    nseeds = 12 if thorough else 2
     for i, sh in enumerate(shapes):
         R, A, B, X, Y = sh
         q = "1x1" if X == 1 and Y == 1 else "multi-question"
@@ -657,7 +657,7 @@ def cases(tier, seed):
     for n in (1, 2):
         for which in _HEDGE_METHODS:
             add("hedge.closed", dict(name="mw-q0", n=n, which=which), "hedge/molina-watrous/n=%d" % n)
-    nq = 12 if thorough else 3
+    nq = 40 if thorough else 5
     for cplx in (False, True):
         fld = "complex" if cplx else "real"
         for i in range(nq):
@@ -695,7 +695,7 @@ def cases(tier, seed):
                     add("clone.closed", dict(par, strategy=False), ic, name != "single")
                     if reps == 1:
                         add("clone.closed", dict(par, strategy=True), ic, name != "single")
-    nc = 16 if thorough else 4
+    nc = 80 if thorough else 8
     for cplx in (False, True):
         for i in range(nc):
             k = 1 + (i % 4)
